@@ -101,6 +101,8 @@ func runC11(c *Ctx, r *Report) {
 	oneRequestPerHash(c, r, "R-C11.21")
 	r.Doc("R-C11.22", "every turn of the fetcher's dispatch loop ends in the wait for queued work or for the last worker: no continue goes back to the loop test past it (the dispatcher would leave while workers are still out, and what they bring back is never followed)")
 	dispatcherWaitsBeforeLeaving(c, r, "R-C11.22")
+	r.Doc("R-C11.23", "a fetch length is never compared for equality with a negative value: no limit is any negative length, everywhere (a place that knows only -1 bounds a load the others treat as unlimited)")
+	lengthTestsAreSignTests(c, r, "R-C11.23")
 	r.Doc("R-C11.19", "an options struct handed in by the caller is only completed with defaults: no field is overwritten with a value computed from its own previous content (the exclusion callback wrapped in a remembering closure answers for the previous load on the next one)")
 	optionsOnlyCompleted(c, r, "R-C11.19")
 	r.Doc("R-C11.17", "the task cache only grows while a fetch runs: no deletion from it and no replacement of the map outside the constructor (the gate reads 'present' as 'already requested'; a forgotten hash is requested again by every later entry that links to it)")
